@@ -288,8 +288,8 @@ def jobs(tier, seed):
     th = tier == 'thorough'
     out = []
     for au in ['NONE', 'ALL'] + MIX:
-        out.append(_j('NT-2-cash', C.nt((2, 3), mode='cash', autos=au), opts={'runouts': (None, 1, 2), 'show': (None, True, False, 'partial')}))
-        out.append(_j('NT-3', C.nt((3, 5, 2), autos=au, antes=1), opts={'raises': 'minmax', 'show': (None, True)},
+        out.append(_j('NT-2-cash', C.nt((2, 3), mode='cash', autos=au), opts={'runouts': (None, 1, 2), 'show': (None, True, False, 'partial'), 'post_hand_show': True}))
+        out.append(_j('NT-3', C.nt((3, 5, 2), autos=au, antes=1), opts={'raises': 'minmax', 'show': (None, True), 'post_hand_show': True},
                       dev_bound=5 if not th else None))
         out.append(_j('stud-2', C.stud((3, 6), autos=au), dev_bound=5 if not th else 7))
         out.append(_j('razz-3', C.stud((2, 5, 4), autos=au, game='FixedLimitRazz'), dev_bound=3 if not th else 4))
